@@ -3,7 +3,7 @@
    SPEC = direct indexing / per-semantic input lists / the documented normalisations. *)
 From Coq Require Import List Bool ZArith NArith Lia.
 From PC Require Import Base.Atoms Base.Xml Base.Outcome Base.Py Model.LoadPrim Model.Namespace Model.LoadDoc
-                       Proofs.LoadPrim Proofs.LoadPrimViews Proofs.LoadPrimRefine Proofs.LoadDoc Proofs.LoadFlat.
+                       Proofs.LoadPrim Proofs.LoadPrimViews Proofs.LoadPrimRefine Proofs.LoadDoc Proofs.LoadFlat Proofs.LoadGeom.
 Import ListNotations.
 Local Open Scope nat_scope.
 
@@ -166,6 +166,22 @@ Theorem C05_source_load_is_read : forall numtab e arr s,
   efind a_float_array e = Some arr -> load_float_source numtab e arr = Ok s -> read_float_source numtab e = Some s.
 Proof. exact load_float_source_is_read. Qed.
 Print Assumptions C05_source_load_is_read.
+
+(* <geometry>: Geometry.load (sources, the <vertices> dict, the primitives in document order) refines
+   the declarative reading of the element.  The only thing it changes that the file does not say is
+   checkSource renaming the components of a source after its use; [erase_geom g srcs] is g with the
+   sources as FloatSource.load left them - when the param names of the file fit their uses (no
+   renaming: g_sources g = srcs) nothing but the record of the checkSource calls differs. *)
+Theorem C05_geometry_load_is_read : forall numtab e g,
+  load_geometry numtab e = Ok g ->
+  exists srcs, omapM (load_source numtab) (efindall_path [a_mesh; a_source] e) = Ok srcs /\
+               read_geometry numtab e = Some (erase_geom g srcs) /\
+               (g_sources g = srcs -> read_geometry numtab e = Some (erase_geom g (g_sources g))).
+Proof.
+  intros numtab e g H. destruct (load_geometry_is_read _ _ _ H) as (srcs & S & R).
+  exists srcs. repeat split; try assumption. intros <-. exact R.
+Qed.
+Print Assumptions C05_geometry_load_is_read.
 
 (* flat class loaders.  Cameras: x / y / znear / zfar as given, the aspect ratio dropped exactly when
    all three of x, y and aspect ratio are given, rejected (DaeMalformed) exactly when neither x nor y
